@@ -809,6 +809,15 @@ def m_enumerate_next(I, st, args, dest_ty, *r):
 def m_iter_next_top(I, st, args, dest_ty, *r):
     d = _deps(I, st, args)
     inner = _option_inner(dest_ty)
+    # iterating a small array whose elements are known (into_iter/iter are modelled as the identity): an element is
+    # one of them -- their join, in no particular order
+    src = _deref(I, st, args[0])
+    if src.kind == "agg" and src.name == "array" and src.fields:
+        from absint import vjoin
+        j = src.fields[0]
+        for x in src.fields[1:]:
+            j = vjoin(j, x, ITER)
+        return EnumV("Option", None, (), 2, ITER, {0: (), 1: (j,)})
     pv = IntV.top(inner, d) if M.int_type(inner) else TopV(inner, d)
     return EnumV("Option", None, (), 2, ITER, {0: (), 1: (pv,)})
 
@@ -914,7 +923,7 @@ MODELS = [(re.compile(p), f) for p, f in [
     (r"Bytes<'_> as std::iter::Iterator>::next$", m_bytes_next),
     (r"Enumerate<I> as std::iter::Iterator>::next$", m_enumerate_next),
     (r"as std::iter::Iterator>::next$", m_iter_next_top),
-    (r"IntoIterator>::into_iter$", m_identity),
+    (r"IntoIterator>::into_iter$|IntoIterator for [^:]*>::into_iter$", m_identity),
     (r"Iterator::map(::<|$)|Iterator>::map(::<|$)", m_iter_map),
     (r"Iterator::for_each(::<|$)|Iterator>::for_each(::<|$)", m_for_each),
     (r"Iterator::enumerate$|Iterator::copied$", m_identity),
